@@ -200,7 +200,11 @@ def check_cliques(ctx):
         if isinstance(s, ast.Assign) and isinstance(s.targets[0], ast.Tuple) and isinstance(s.value, ast.Call) and \
                 U(s.value.func) == 'self._triangulated':
             tri = (U(s.targets[0].elts[0]), s)
-    cl = defs.get('cliques', [])
+    # the clique list: the assignment whose value canonicalises something (whatever the local is called)
+    cl = [s_ for s_ in walk_shallow(fi.node) if isinstance(s_, ast.Assign) and len(s_.targets) == 1 and isinstance(s_.targets[0], ast.Name)
+          and any(isinstance(c_, ast.Call) and isinstance(c_.func, ast.Attribute) and c_.func.attr == 'canonical' for c_ in ast.walk(s_.value))]
+    if not cl:
+        cl = defs.get('cliques', [])
     ok = False
     if tri and cl:
         v = cl[-1].value
